@@ -5,10 +5,12 @@
    c19 <filters> <msgs> <dist>          each a ';'-separated list, '-' when empty
      filter :  N,attr,...  |  T,int,...  |  D,<lat>,<lon>,<km>  |  G,<lat_min>,<lon_min>,<lat_max>,<lon_max>  |  A,<pred>
      pred   :  c.0 | c.1 | nn.<name> | has.<name> | tr.<name> | lt.<name>.<rat> | te.<int>
-     msg    :  <msg_type>,<name>=<val>,...      val :  N | r<rat> | o0 | o1          or   E.<ExceptionName>
+     msg    :  <msg_type>,<name>=<read>,...     read:  N | r<rat> | o0 | o1 | x<ExceptionName>   or   E.<ExceptionName>
+               (<read> = what evaluating msg.<name> does: a value, or -- for a computed attribute -- the exception raised)
      dist   :  <ref_lat>,<ref_lon>,<lat>,<lon>,<km>
      rat    :  <num>:<den>
-   reply:  OUT <msgs> END <end|ExceptionName> | SPEC <msgs> | UTOTAL <0|1>        (or  RAISE <ExceptionName> | ...) *)
+   reply:  OUT <msgs> END <end|ExceptionName> | SPEC <msgs> | UTOTAL <0|1> | SHAPE <0|1>       (or  RAISE <ExceptionName> | ...)
+           SHAPE = every decoded message of the stream satisfies the theorems' hypotheses coords_numeric and attr_reads_ok *)
 open Extracted
 open Drvlib
 
@@ -20,14 +22,6 @@ let rat_of_string (s : ostring) : ratio =
   | [n; d] -> { ratio_num = z_of_string n; ratio_den = pos_of_z (z_of_string d) }
   | _ -> failwith ("bad rational " ^ s)
 let str_rat (r : ratio) : ostring = string_of_z r.ratio_num ^ ":" ^ string_of_z (Zpos r.ratio_den)
-
-let aval_of_string (s : ostring) : aval =
-  if s = "N" then ANone
-  else if s = "o1" then AOther true
-  else if s = "o0" then AOther false
-  else if String.length s > 1 && s.[0] = 'r' then ANum (rat_of_string (String.sub s 1 (String.length s - 1)))
-  else failwith ("bad attribute value " ^ s)
-let str_aval = function ANone -> "N" | ANum r -> "r" ^ str_rat r | AOther true -> "o1" | AOther false -> "o0"
 
 let all_lib = [InvalidNMEAMessageException; InvalidNMEAChecksum; UnknownMessageException;
                MissingMultipartMessageException; TooManyMessagesException; UnknownPartNoException;
@@ -42,6 +36,17 @@ let exn_of_string (s : ostring) : exn =
            | e :: _ -> Py e
            | [] -> Py Unmodelled)
 
+(* the outcome of reading one attribute *)
+let read_of_string (s : ostring) : aval m =
+  if s = "N" then Ok ANone
+  else if s = "o1" then Ok (AOther true)
+  else if s = "o0" then Ok (AOther false)
+  else if String.length s > 1 && s.[0] = 'r' then Ok (ANum (rat_of_string (String.sub s 1 (String.length s - 1))))
+  else if String.length s > 1 && s.[0] = 'x' then Raise (exn_of_string (String.sub s 1 (String.length s - 1)))
+  else failwith ("bad attribute value " ^ s)
+let str_aval = function ANone -> "N" | ANum r -> "r" ^ str_rat r | AOther true -> "o1" | AOther false -> "o0"
+let str_read = function Ok v -> str_aval v | Raise e -> "x" ^ str_exn e
+
 (* a stream element: a decoded message, or the exception its decode() raises *)
 let item_of_string (s : ostring) : pymsg m =
   if String.length s > 2 && String.sub s 0 2 = "E." then Raise (exn_of_string (String.sub s 2 (String.length s - 2)))
@@ -50,12 +55,12 @@ let item_of_string (s : ostring) : pymsg m =
       Ok { pm_type = z_of_string t;
            pm_attrs = List.map (fun kv -> match String.index_opt kv '=' with
                | Some i -> (coq_string (String.sub kv 0 i),
-                            aval_of_string (String.sub kv (i + 1) (String.length kv - i - 1)))
+                            read_of_string (String.sub kv (i + 1) (String.length kv - i - 1)))
                | None -> failwith ("bad attribute " ^ kv)) attrs }
     | [] -> failwith "empty message"
 let str_msg (m : pymsg) : ostring =
   String.concat "," (string_of_z m.pm_type
-                     :: List.map (fun (k, v) -> ocaml_string k ^ "=" ^ str_aval v) m.pm_attrs)
+                     :: List.map (fun (k, v) -> ocaml_string k ^ "=" ^ str_read v) m.pm_attrs)
 let str_msgs (l : pymsg list) : ostring = if l = [] then "-" else String.concat ";" (List.map str_msg l)
 
 let upred_of_string (s : ostring) : upred =
@@ -118,7 +123,8 @@ let () = register "c19" (function
       List.for_all (fun (_, _, p) -> match p with
           | None -> true
           | Some p -> List.for_all (fun m -> is_ok (upred_eval p m)) decoded) fs in
-    model ^ " | " ^ spec ^ " | UTOTAL " ^ str_bool utotal
+    let shape = List.for_all (fun m -> coords_numeric m && attr_reads_ok m) decoded in
+    model ^ " | " ^ spec ^ " | UTOTAL " ^ str_bool utotal ^ " | SHAPE " ^ str_bool shape
   | _ -> "ERROR bad arguments for c19")
 
 (* one filter on one message:  c19keep <filter> <msg> <dist>  ->  Ok 0|1 / Raise E  |  spec 0|1 *)
@@ -130,3 +136,7 @@ let () = register "c19keep" (function
      | Raise _ -> "ERROR not a message"
      | Ok m -> str_m str_bool (filter_keep dist f m) ^ " | " ^ str_bool (crit_satisfies dist c m))
   | _ -> "ERROR bad arguments for c19keep")
+
+(* the recorded witness of C19_nonefilter_unrepaired_raises, in the token syntax of c19:  c19witness  ->  <msg> *)
+let () = register "c19witness" (function
+  | _ -> str_msg filter_truncated_type18)
